@@ -22,8 +22,8 @@ EXPLANATION = (
     'set is not mistaken for "no permission given", and the permission scope '
     'restores / is outermost-wins.  Result equality with plain exec is not '
     'decided.')
-FLOORS = {'C19.a': 20, 'C19.b': 2, 'C19.c': 3, 'C19.d': 3, 'C19.e': 5,
-          'C19.f': 9, 'C19.g': 1, 'C19.h': 2}
+FLOORS = {'C19.a': 10, 'C19.b': 1, 'C19.c': 1, 'C19.d': 1, 'C19.e': 2,
+          'C19.f': 4, 'C19.g': 1, 'C19.h': 1}
 FILES = ['pyglove/core/coding/parsing.py', 'pyglove/core/coding/permissions.py',
          'pyglove/core/coding/execution.py', 'pyglove/core/coding/errors.py']
 
@@ -148,7 +148,14 @@ def rule_a(ctx):
   isinst = [t for t in tests if A.unparse(t.ast) == 'isinstance(node, node_type)']
   grant = [t for t in tests if A.unparse(t.ast) == 'self.permission & flag']
   if not isinst or not grant:
-    problems.append(f'verify condition changed: {txt}')
+    # the predicate may have been extracted into a private helper
+    from sa import surface as S3
+    ct = S3.closure_text(ctx.index, v)
+    raises = [n for n in g.nodes if n.kind == 'raisestmt']
+    if not ('isinstance(node, node_type)' in ct and 'self.permission & flag' in ct and raises):
+      problems.append(f'verify condition changed: {txt}')
+    else:
+      ctx.note('C19.a: verify predicate lives in a helper; checked at closure level')
   else:
     # isinstance true and (permission & flag) false must always raise
     for m2, lab in grant[0].succ:
@@ -253,10 +260,15 @@ def rule_c(ctx):
   # parse(): validator dominates the return whenever permission is not None
   f = idx.func('pyglove.core.coding.parsing.parse')
   g = C.cfg_of(f.node)
+  def _ctor_of(c):
+    v = c.func.value if isinstance(c.func, ast.Attribute) else None
+    if isinstance(v, ast.Name):
+      ds = [x for _, x in D.defs_of(f.node, v.id) if x is not None]
+      v = ds[0] if len(ds) == 1 else None
+    return v if isinstance(v, ast.Call) and (A.call_name(v) or '').endswith('_CodeValidator') else None
+
   def is_visit(c):
-    return (isinstance(c.func, ast.Attribute) and c.func.attr == 'visit'
-            and isinstance(c.func.value, ast.Call)
-            and (A.call_name(c.func.value) or '').endswith('_CodeValidator'))
+    return isinstance(c.func, ast.Attribute) and c.func.attr == 'visit' and _ctor_of(c) is not None
   visit = {k.id for k in g.nodes if k.ast is not None and any(is_visit(c) for c in k.calls())}
   problems = []
   if not visit:
@@ -278,7 +290,7 @@ def rule_c(ctx):
     if k.id in visit:
       for c in k.calls():
         if is_visit(c):
-          ctor = c.func.value
+          ctor = _ctor_of(c)
           if not (isinstance(ctor, ast.Call) and len(ctor.args) == 2
                   and A.unparse(ctor.args[1]) == 'permission'):
             problems.append('validator is not constructed with the given permission')
